@@ -10,7 +10,8 @@ namespace JP
 
 abbrev Bytes := List UInt8
 
-def ascii (s : String) : Bytes := s.toUTF8.toList
+/-- the bytes of an ASCII string literal (reduces in the kernel, unlike `String.toUTF8`) -/
+def ascii (s : String) : Bytes := s.toList.map fun c => UInt8.ofNat c.toNat
 
 def hexDigit (n : Nat) : UInt8 :=
   if n < 10 then UInt8.ofNat (48 + n) else UInt8.ofNat (87 + n)
